@@ -1,9 +1,11 @@
 (* C04 -- every reported source range is exact, well-formed and properly nested.  Statements only.
-   PARTIAL: proved is that every position built through Position::new is a character boundary inside the text
-   carrying the lookup's line/column, and that the lookup index of the end of a prefix is its character count.
-   Exactness of name ranges and nesting are checked on the implementation's output by text-based oracles and by
-   the exact correspondence with the table-driven model. *)
-From AidlV Require Import Model.LrDriver Proofs.Totality.
+   PARTIAL: proved is that EVERY position in everything add_content stores -- every range of every node of the tree, every
+   syntax diagnostic -- is the lookup's answer at a character boundary inside the text (C04_stored_positions, for every text,
+   well-formed or not, and any tables: an invariant of the parser's stack that needs no typing), that Position::new itself is
+   sound, and that the lookup index of the end of a prefix is its character count.
+   Not proved: start <= end, exactness of name ranges and nesting; those are checked on the implementation's output by
+   text-based oracles and by the exact correspondence with the table-driven model. *)
+From AidlV Require Import Model.LrDriver Proofs.Totality Proofs.RangesOk.
 
 Theorem C04_position : forall cx off p,
   mk_pos cx off = Some p ->
@@ -20,3 +22,31 @@ Print Assumptions C04_range_partial.
 Theorem C04_boundary : forall pre post, char_index (pre ++ post) (byte_len pre) O = Some (length pre).
 Proof. intros. rewrite char_index_app. reflexivity. Qed.
 Print Assumptions C04_boundary.
+
+(* every position the parser stage stores: its offset is a character boundary of the text and its line/column are the
+   lookup's answer there; for the tree (aidl_rok: package, imports, declarations, item, members, arguments, types at any
+   depth, direction / oneway / transact-code ranges) and for every diagnostic with its related ranges *)
+Theorem C04_stored_positions : forall cx id fr, add_content cx id = Added fr ->
+  Forall (diag_rok cx) (fr_diags fr) /\ (forall a, fr_ast fr = Some a -> aidl_rok cx a).
+Proof. exact add_content_ranges. Qed.
+Print Assumptions C04_stored_positions.
+
+(* what pos_ok says, spelled out *)
+Theorem C04_pos_ok_meaning : forall cx p, pos_ok cx p ->
+  (p_off p <= byte_len (cx_src cx))%N /\
+  exists i, char_index (cx_src cx) (p_off p) O = Some i /\ nth_error (cx_lc cx) i = Some (p_line p, p_col p).
+Proof.
+  intros cx p [i [C D]]. split; [|exists i; auto]. apply char_index_bound in C. tauto.
+Qed.
+Print Assumptions C04_pos_ok_meaning.
+
+(* non-vacuity: a method's four ranges, on a concrete text *)
+Example C04_ex : exists a, add_content (Ctx (lit "package p; interface I { oneway void f() = 7; }")
+                              (map (fun i => (1, N.of_nat i + 1)%N) (seq 0 48))) (lit "f") = Added (FR (lit "f") (Some a) []) /\
+  match ai_item a with
+  | ItInterface i => match i_elems i with
+                     | [IEMethod m] => (p_off (r_start (m_oneway_range m)), p_off (r_end (m_oneway_range m)),
+                                        p_off (r_start (m_code_range m)), p_off (r_end (m_code_range m))) = (25, 31, 41, 44)%N
+                     | _ => False end
+  | _ => False end.
+Proof. vm_compute. eexists. split; reflexivity. Qed.
